@@ -31,6 +31,7 @@ int sched_bad_choice(void);
 int sched_preemptions(void);
 }
 
+static volatile sig_atomic_t g_time_up = 0;   // set by the per-program time limit: stop taking new work, record the program as capped
 static thread_local int me = -1;  // worker index inside an explored execution, -1 = main thread
 
 namespace trompeloeil {
@@ -326,6 +327,7 @@ static std::string apply_micro(Model& md, const Micro& mi, std::string& acc) {
 }
 struct LinState { Model md; int opi[MAXT], mii[MAXT]; std::vector<std::string> res[MAXT]; std::string acc[MAXT]; };
 static void linearize(const Program& p, const std::vector<std::vector<std::vector<Micro>>>& mt, LinState st, std::set<std::string>& out, long& nodes) {
+  if (g_time_up) return;   // the set is incomplete then: the caller does not judge any result against it
   bool any = false;
   for (int t = 0; t < p.nt; ++t) {
     if (st.opi[t] >= p.nops[t]) continue;
@@ -372,7 +374,6 @@ static std::set<std::string> allowed_results(const Program& p, long& nodes) {
 // -------------------------------------------------------------------------------------------------
 struct ProgStats { long schedules = 0, points = 0, nodes = 0, lin_nodes = 0, races = 0, nonlin = 0, deadlocks = 0, nondet = 0; int max_preempt = 0; std::set<std::string> outcomes; std::vector<int> bad_choices; std::string bad_what, bad_result; size_t allowed = 0; bool capped = false; };
 
-static volatile sig_atomic_t g_time_up = 0;
 static void explore(const Program& p, const std::set<std::string>& allowed, std::vector<int> prefix, int bound, ProgStats& st, long max_sched) {
   if (st.schedules >= max_sched || g_time_up) { st.capped = true; return; }
   long before = g_tsan_reports;
@@ -427,6 +428,13 @@ static std::vector<Program> programs_of(const std::string& shape, const std::vec
     std::vector<std::array<int, 3>> tp;
     for (int a : ops) for (int b : ops) for (int c : ops) tp.push_back({{a, b, c}});
     for (size_t x = 0; x < tp.size(); ++x) for (size_t y = x; y < tp.size(); ++y) { Program p{}; p.nt = 2; p.nops[0] = p.nops[1] = 3; for (int k = 0; k < 3; ++k) { p.op[0][k] = tp[x][(size_t)k]; p.op[1][k] = tp[y][(size_t)k]; } add(p); }
+  } else if (shape == "3x2") {
+    std::vector<std::pair<int, int>> tp;
+    for (int a : ops) for (int b : ops) tp.push_back({a, b});
+    for (size_t x = 0; x < tp.size(); ++x) for (size_t y = x; y < tp.size(); ++y) for (size_t z = y; z < tp.size(); ++z) {
+      Program p{}; p.nt = 3; p.nops[0] = p.nops[1] = p.nops[2] = 2;
+      p.op[0][0] = tp[x].first; p.op[0][1] = tp[x].second; p.op[1][0] = tp[y].first; p.op[1][1] = tp[y].second; p.op[2][0] = tp[z].first; p.op[2][1] = tp[z].second; add(p);
+    }
   } else if (shape == "2x2") {
     std::vector<std::pair<int, int>> tp;
     for (int a : ops) for (int b : ops) tp.push_back({a, b});
@@ -501,7 +509,8 @@ int main(int argc, char** argv) {
       signal(SIGALRM, [](int) { if (g_time_up) _exit(114); g_time_up = 1; alarm(30); });
       alarm(per_program_limit);
       ProgStats st; std::set<std::string> allowed = allowed_results(p, st.lin_nodes); st.allowed = allowed.size();
-      explore(p, allowed, {}, bound, st, max_sched);
+      if (g_time_up) st.capped = true;   // enumerating the model's interleavings alone took the whole time limit: nothing is explored, nothing is judged
+      else explore(p, allowed, {}, bound, st, max_sched);
       std::string ch; for (int x : st.bad_choices) { ch += std::to_string(x); ch += ','; }
       std::string smp = st.outcomes.empty() ? "" : *st.outcomes.begin();
       char buf[8192];
